@@ -191,6 +191,54 @@ def hier_designs(tier, seed):
                lambda s=s: build(s))
 
 
+def flat_top_designs():
+    """single-level tops (only leaf devices below them) that have NOT been elaborated and use what elaboration resolves:
+    arrays, port references, no-connects, bundles, instance pairs; the `invalid/` ones must be refused"""
+    import hdl21 as h
+
+    def mk(kind):
+        def b():
+            E2 = h.ExternalModule(name="FT2", port_list=[h.Inout(name="a", width=2), h.Inout(name="z")], desc="", domain="ft")
+            m = h.Module(name="FlatTop")
+            m.p, m.q = h.Port(), h.Port()
+            m.w = h.Signal(width=2)
+            m.r1 = h.R(r=1)(p=m.p)
+            if kind == "array":
+                m.r1.n = m.q
+                m.arr = 2 * h.R(r=2)(p=m.w, n=m.q)
+                m.e = E2()(a=m.w, z=m.p)
+            elif kind == "port-ref":
+                m.r2 = h.R(r=2)(p=m.r1.n, n=m.q)
+                m.e = E2()(a=m.w, z=m.r2.p)
+            elif kind == "noconn":
+                m.r1.n = m.q
+                m.c = h.C(c=1)(p=m.q, n=h.NoConn())
+                m.e = E2()(a=m.w, z=h.NoConn())
+            elif kind == "bundle":
+                B = h.Bundle(name="FTB")
+                B.add(h.Signal(name="x"))
+                B.add(h.Signal(name="y", width=2))
+                m.bb = B()
+                m.r1.n = m.bb.x
+                m.e = E2()(a=m.bb.y, z=m.bb.x)
+            elif kind == "pair":
+                m.r1.n = m.q
+                m.pr = h.Pair(h.R(r=5))(p=h.AnonymousBundle(p=m.p, n=m.q), n=h.AnonymousBundle(p=m.q, n=m.p))
+            elif kind == "invalid/missing-connection":
+                m.e = E2()(a=m.w)
+            elif kind == "invalid/width":
+                m.r1.n = m.q
+                m.e = E2()(a=m.q, z=m.p)
+            elif kind == "invalid/array-width":
+                m.r1.n = m.q
+                m.w3 = h.Signal(width=3)
+                m.arr = 2 * h.R(r=2)(p=m.w3, n=m.q)
+            return m
+        return b
+    for kind in ("array", "port-ref", "noconn", "bundle", "pair", "invalid/missing-connection", "invalid/width", "invalid/array-width"):
+        yield (f"flat-top/{kind}", mk(kind))
+
+
 def check_flatten(case):
     import hdl21 as h
     from rtc.meaning import package_meaning, compare, Meaning
@@ -200,6 +248,14 @@ def check_flatten(case):
     try:
         pkg0 = h.to_proto(top)
     except Exception:
+        if desc.startswith("flat-top/invalid/"):
+            # a design elaboration refuses is "a design it cannot flatten": rejected, never handed back
+            try:
+                from hdl21.flatten import flatten as _flatten
+                res = _flatten(build())
+            except Exception:
+                return None
+            return ("flatten.accepts-invalid", f"{desc}: flatten() returned {res} for a design that elaboration refuses", w)
         return None
     from rtc.meaning import InvalidPackage
     try:
@@ -220,6 +276,17 @@ def check_flatten(case):
     for i in flat.instances.values():
         if not isinstance(i.of, (h.PrimitiveCall, h.ExternalModuleCall)):
             return ("post.not-flat", f"{desc}: instance {i.name} of the result is not a leaf", w)
+    # the RESULT AS RETURNED (before anything else elaborates it): leaf instances only - no arrays, instance bundles or
+    # bundles left to expand - one per leaf device, each terminal on a net of the module (a signal, or bits of signals)
+    leftovers = [k for k in ("instarrays", "instbundles", "bundles") if getattr(flat, k, None)]
+    if leftovers:
+        return ("post.not-flat", f"{desc}: the result still holds {leftovers}", w)
+    if len(flat.instances) != len(m0.devices):
+        return ("post.device-count", f"{desc}: {len(m0.devices)} leaf devices, the result has {len(flat.instances)} instances", w)
+    for i in flat.instances.values():
+        for pn, c in i.conns.items():
+            if not isinstance(c, (h.Signal, h.Slice, h.Concat)):
+                return ("post.not-flat", f"{desc}: {i.name}.{pn} of the result is on {type(c).__name__}, not on a net", w)
     try:
         pkg1 = h.to_proto(flat)
     except Exception as e:
@@ -269,20 +336,22 @@ def run(ctx):
     ctx.assumptions.append("flattened-name injectivity is proved for paths of up to 3 instances (arity unrolled); walk() "
                            "itself (a recursive generator) and flatten()'s assembly loops are decided by the bounded part")
     fam = [d for k, d in enumerate(design_family(ctx.tier, ctx.seed)) if ctx.tier == "thorough" or k % 3 == 0]
-    cases = itertools.chain(hier_designs(ctx.tier, ctx.seed), fam)
+    cases = itertools.chain(hier_designs(ctx.tier, ctx.seed), flat_top_designs(), fam)
     ctx.run_bounded("flatten-vs-original", cases, check_flatten,
                     rule="generated scalar/bus hierarchies (depth 1-3, primitive and external-module leaves, internal "
                          "nets at every level, ports passed through levels, names colliding with ':'-joined paths) plus "
                          "every third design of the shared family; leaf devices (with parameters), leaf-net partition "
                          "and ports of flatten(m) compared with m; a documented rejection is accepted only for designs "
-                         "with slices/concats; distinct = distinct design; non-trivial = depth >= 2 or bus",
+                         "with slices/concats; single-level tops not elaborated before the call that use arrays, port references, "
+                         "no-connects, bundles and pairs (the result as returned holds leaf instances on nets only), and "
+                         "three that elaboration refuses (flatten must refuse them too); distinct = distinct design; non-trivial = depth >= 2 or bus",
                     bound="depth<=3", key_of=lambda c: c[0], nontrivial=lambda c: "/d1/" not in c[0])
     return INFO
 
 
 def replay(payload):
     want = (payload.get("input") or {}).get("design")
-    for desc, b in itertools.chain(hier_designs("quick", 0), design_family("thorough", 0)):
+    for desc, b in itertools.chain(hier_designs("quick", 0), flat_top_designs(), design_family("thorough", 0)):
         if desc == want:
             r = check_flatten((desc, b))
             print("replay:", r)
